@@ -199,3 +199,20 @@ def _c15_forward_zone(f: Failure) -> bool:
     ('Host: [fe80::1%eth0]'); direct requests (http.client) drop the zone."""
     o = f["observed"] or {}
     return f["kind"] == "host-header-wrong" and o.get("route") == "forward" and o.get("host_kind") == "ipv6" and o.get("zone_in_url") is True and o.get("got_has_zone") is True and str(o.get("port_in_url")) != "0"
+
+
+# ---------------------------------------------------------------------------------- C02 -------
+@finding("C02", "close-strands-blocked-getter")
+def _c02_close_strands(f: Failure) -> bool:
+    """close() swaps the queue out while a requester is blocked in queue.get() (block=True, no pool_timeout): the
+    connections still in use are closed instead of being put back, so nothing ever wakes the waiter."""
+    o = f["observed"] or {}
+    return (
+        f["kind"] == "thread-never-finishes"
+        and o.get("closer") is True
+        and o.get("block") is True
+        and o.get("stranded_in_queue_get") is True
+        and o.get("pool_was_closed") is True
+        and o.get("others_finished") is True
+        and not any(str(n).startswith("closer") for n in o.get("stranded", []))
+    )
